@@ -12,15 +12,17 @@ CHECK = {
         {"fn": P + "vC19_claim", "replay": "model-only", "opts": {"substitute": dict(SUB, **{"fmt.Sprintf": P + "vC19_sprintf"})},
          "cases_quick": {"nodes": [2]}, "cases_thorough": {"nodes": [4]}},
         {"fn": P + "vC19_ttl", "replay": "model-only"},
+        {"fn": P + "vC19_cron", "replay": "model-only", "opts": {"substitute": dict(SUB, **{"fmt.Sprintf": P + "vC19_sprintf",
+            "github.com/reugn/go-quartz/quartz.NewCronTriggerWithLoc": P + "vC19_newCron", "(*github.com/reugn/go-quartz/quartz.CronTrigger).NextFireTime": P + "vC19_cronNext"})}},
     ],
     "opts": {"unwind": 8, "substitute": SUB},
     "stop": list(SUB.keys()),
     "timeout_ms": {"quick": 900000, "thorough": 3000000},
     "explanation": "Kernel only (delivery timing is go-quartz's and outside the claim). vC19_book: (*scheduler).ScheduleOnce / Schedule / CancelSchedule / PauseSchedule / ResumeSchedule / ListSchedules / recordSchedule / makeJobFn, newScheduleConfig, WithReference, the real xsync.Map bookkeeping and the real go-quartz JobKey/JobDetail/FunctionJob/trigger constructors are executed symbolically for every sequence of K operations over two references, on a started or stopped scheduler, against the set of live (scheduled, not cancelled) references; "
-                   "the quartz scheduler is a harness stand-in (a keyed job set with pause flags); firing a job that is still scheduled runs the real job function, with (*PID).Tell substituted by a recorder. "
+                   "the quartz scheduler is a harness stand-in (a keyed job set with pause flags that, like go-quartz, refuses a key that is still queued); a reference must stay known to cancel/pause/resume exactly while its job is queued (also after a refused duplicate registration); firing a job that is still scheduled runs the real job function, with (*PID).Tell substituted by a recorder. "
                    "vC19_claim: N nodes (own scheduler and actor system each) handle the same cron schedule: real makeJobFn + claimClusterFire + (*cluster).ClaimScheduleFire, with (*cluster).putRecordIfAbsent substituted by one shared put-if-absent registry (stored / already present / storage failure); per node symbolic: which of two ticks, lag (library clock: arbitrary non-decreasing), tick metadata present, cluster engine present / running, storage failure. "
                    "The registry write is one atomic storage operation per node, so all interleavings of the racing nodes are the orders in which the harness runs them (the tick chosen per node is arbitrary). fmt.Sprintf is substituted in this entry by an exact equivalent for the claim key format and the two tick times (asserted). "
-                   "vC19_ttl: cronClaimTTL for a trigger with arbitrary next-fire times / errors is within [1 min, 24 h] and equals the period inside the bounds.",
+                   "vC19_cron: the real ScheduleWithCron (go-quartz cron parser substituted by a one-minute trigger) on a node whose cluster engine is wired, actor system started or not yet started: the registered job claims its ticks (one tick handled twice => at most one delivery). vC19_ttl: cronClaimTTL for a trigger with arbitrary next-fire times / errors is within [1 min, 24 h] and equals the period inside the bounds.",
     "bounds": {"book": "quick 3 / thorough 5 operations, 2 references", "claim": "quick 2 / thorough 4 nodes, 2 ticks, ttl in [1 min, 24 h]", "registry": "entries do not expire during the scenario (claim-entry expiry vs. the stale-tick rule is not modelled)"},
     "assumptions": ["go-quartz is replaced by a keyed job set: its timing, misfire and execution semantics are outside the claim", "registry entries outlive the scenario (TTL expiry of claim entries is not modelled)",
                     "a node's registry write is atomic (olric NX put)"],
